@@ -148,3 +148,19 @@ Example C06_example :
   | _ => False
   end.
 Proof. vm_compute. repeat split; reflexivity. Qed.
+
+(* broadcastCertificate (cleanup with the current BFT heights, selection, publish, upgrade) keeps the pool valid and
+   duplicate-free, and its cleanup keeps a commit iff its height is above the certified height recorded in the finalised
+   block and (it lies in the last 100 heights below maxHeightPrecommitted — uint32 arithmetic — or BFT parameters exist
+   at the next height) *)
+Theorem C06_broadcast_preserves_pool_validity : forall (sigT msgT : Type) (msg_of : cert -> msgT)
+    (vrf : key -> msgT -> sigT -> bool) e tip published (p : pool sigT),
+  pool_ok sigT msgT msg_of vrf e (gossiped p ++ nongossiped p) ->
+  pool_ok sigT msgT msg_of vrf e (gossiped (broadcast_certificate e tip published p) ++
+                                  nongossiped (broadcast_certificate e tip published p)).
+Proof. intros sigT msgT msg_of vrf. exact (broadcast_preserves_ok sigT msgT msg_of vrf). Qed.
+
+Theorem C06_broadcast_cleanup_spec : forall e rh h,
+  cleanup_keep e rh h = true <->
+  rh < h /\ ((sub32 (e_mhp e) 100 <= h /\ h < e_mhp e) \/ exist_params e (u32 (h + 1)) = true).
+Proof. exact broadcast_cleanup_spec. Qed.
